@@ -1,7 +1,9 @@
 """Mutations for the C09 self-test:  MUTNAME=<name> tools/mutate.sh C09 harness/c09_mutations.py
 (run with the scratch copy of /repo as working directory).  Names ending in `_fixed` first apply the two
-proposed repairs (fixes/C09-tc-placeholder-start-point.diff, fixes/C09-duplicate-labels-refused.diff) and are
-meant to be run with the switches in `repaired` mode (tools/c09_switch.py tc|dups repaired)."""
+proposed repairs (fixes/C09-tc-placeholder-start-point.diff, fixes/C09-duplicate-labels-refused.diff; both are in /repo by now)
+and are meant to be run with the switches in `repaired` mode (tools/c09_switch.py tc|dups repaired).  `cache_fixed` and
+`cache_check_only_scan_fixed` apply fixes/C09-cached-steady-state-unique-index.diff and need `tools/c09_switch.py cache repaired`
+(flip back to `snapshot` afterwards while the diff is not applied to /repo)."""
 import os
 import subprocess
 import sys
@@ -20,7 +22,9 @@ def sub(path: str, old: str, new: str, count: int = 1) -> None:
 
 if name.endswith("_fixed"):
     for d in ("C09-tc-placeholder-start-point", "C09-duplicate-labels-refused"):
-        subprocess.run(["patch", "-p1", "-s", "-i", f"/verif/fixes/{d}.diff"], check=True)
+        # both are applied in /repo since fe02afa / eada00b: apply only where they still apply
+        if subprocess.run(["patch", "-p1", "-s", "-N", "--dry-run", "-i", f"/verif/fixes/{d}.diff"], capture_output=True).returncode == 0:
+            subprocess.run(["patch", "-p1", "-s", "-i", f"/verif/fixes/{d}.diff"], check=True)
 
 if name == "reverse_dict":            # time-course results come back in reverse input order
     sub("src/mxlpy/scan.py", "    return TimeCourseScan(\n        to_scan=to_scan,\n        raw_results=dict(res),",
@@ -42,6 +46,19 @@ elif name == "mc_protocol_unchecked_fixed":  # one entry point forgets the index
         "    if y0 is not None:\n        model.update_variables(y0)\n\n    res = parallelise(\n        partial(\n            _update_parameters_and_initial_conditions,\n            fn=partial(\n                worker,\n                protocol=protocol,\n                integrator=integrator,\n                y0=None,\n                time_points_per_step")
 elif name == "unique_check_inverted_fixed":  # the index test refuses the tables it should accept
     sub("src/mxlpy/scan.py", "    if not to_scan.index.is_unique:", "    if to_scan.index.is_unique and len(to_scan) > 3:")
+elif name == "mc_y0_ignored":       # mc.time_course forgets to write y0 into the model
+    sub("src/mxlpy/mc.py", "    _require_unique_index(mc_to_scan)\n\n    if y0 is not None:\n        model.update_variables(y0)\n\n    res = parallelise(\n        partial(\n            _update_parameters_and_initial_conditions,\n            fn=partial(\n                worker,\n                time_points=time_points,",
+        "    _require_unique_index(mc_to_scan)\n\n    res = parallelise(\n        partial(\n            _update_parameters_and_initial_conditions,\n            fn=partial(\n                worker,\n                time_points=time_points,")
+elif name == "ss_y0_also_to_worker":  # scan.steady_state writes y0 into the model AND hands it to the worker (y0 beats the row again)
+    sub("src/mxlpy/scan.py", "                rel_norm=rel_norm,\n                integrator=integrator,\n                y0=None,",
+        "                rel_norm=rel_norm,\n                integrator=integrator,\n                y0=y0,")
+elif name == "ss_by_last_label":      # steady-state results re-ordered through a dict (first position, last value)
+    sub("src/mxlpy/scan.py", "        raw_results=[i[1] for i in res],", "        raw_results=[dict(res)[k] for k, _ in res],")
+elif name == "cache_fixed":           # only the proposed repair of the cached steady-state scans (run with `c09_switch.py cache repaired`)
+    subprocess.run(["patch", "-p1", "-s", "-i", "/verif/fixes/C09-cached-steady-state-unique-index.diff"], check=True)
+elif name == "cache_check_only_scan_fixed":  # the repair applied to scan.steady_state but not to mc.steady_state
+    subprocess.run(["patch", "-p1", "-s", "-i", "/verif/fixes/C09-cached-steady-state-unique-index.diff"], check=True)
+    sub("src/mxlpy/mc.py", "    if cache is not None:\n        _require_unique_index(mc_to_scan)\n\n", "")
 elif name == "none_fixed":
     pass
 else:
